@@ -9,7 +9,7 @@
    normalizer, trend and variance clipping.  Kinv is whatever matrix the implementation obtained from
    LAPACK; theorems state what they assume about it.   mat_of / vec_of read lists as index functions. *)
 From Coq Require Import Reals List.
-From GS Require Import Num Loops Krigesum_gen C05_Mat C05_RInst C05_Model C05_Proofs.
+From GS Require Import Num Loops Krigesum_gen C05_Mat C05_RInst C05_Model C05_Proofs C05_Examples.
 
 (* the list-of-lists built by the model's _get_krige_mat has the entries the theorems speak about *)
 Theorem C05_matrix_entries :
@@ -162,3 +162,19 @@ Theorem C05_cond_perm_invariant :
     aget 0%R (snd (krige_raw Rops S' Q' Kinv' cond' chunk')) t' = aget 0%R (snd (krige_raw Rops S Q Kinv cond chunk)) t.
 Proof. exact cond_perm_invariant. Qed.
 Print Assumptions C05_cond_perm_invariant.
+
+(* the same for the concrete operation: S', Q', cond' list the conditioning points of S, Q, cond in
+   another order (cond_reordered: covariances, errors, drift values, right-hand sides and data carried
+   along by the bijection sg of 0..n-1); each system solved with its own two-sided inverse *)
+Theorem C05_cond_order_invariant :
+  forall (S S' : KSys R) (Q Q' : KTgt R) (Kinv Kinv' : list (list R)) (cond cond' : list R)
+         (chunk chunk' : nat) (sg sg' : nat -> nat) (t t' : nat),
+    cond_reordered S S' Q Q' cond cond' sg sg' t t' ->
+    shape0 Kinv = ks_size S -> shape0 Kinv' = ks_size S -> (0 < ks_size S)%nat ->
+    (1 <= chunk)%nat -> (1 <= chunk')%nat -> (t < kt_m Q)%nat -> (t' < kt_m Q')%nat ->
+    meq (ks_size S) (mmul (ks_size S) (kmat_entry Rops S) (mat_of Kinv)) delta ->
+    meq (ks_size S) (mmul (ks_size S) (mat_of Kinv') (kmat_entry Rops S')) delta ->
+    aget 0%R (fst (krige_raw Rops S' Q' Kinv' cond' chunk')) t' = aget 0%R (fst (krige_raw Rops S Q Kinv cond chunk)) t /\
+    aget 0%R (snd (krige_raw Rops S' Q' Kinv' cond' chunk')) t' = aget 0%R (snd (krige_raw Rops S Q Kinv cond chunk)) t.
+Proof. exact cond_order_invariant. Qed.
+Print Assumptions C05_cond_order_invariant.
